@@ -60,7 +60,8 @@ class History:
         self.tmp_baseline = len(self.proj.tmp_entries())
         self._apply_config_class()
         self.events.append({"ev": "init", "files": self._abs_tree(self.tree), "lock": self.abs_lock,
-                            "maxid": self.maxid, "label": self.label})
+                            "maxid": self.maxid, "label": self.label, "present": self._present_list(), "bad": self._bad_list(),
+                            "base": self.base, "must_fail": self.config_class != "ok"})
         self.last_reports = None
 
     def _norm(self, slots):
@@ -132,6 +133,12 @@ class History:
             return 0
         return min(v, self.maxid + 50) if self.base else min(v, BIGMAX + 50)
 
+    def _present_list(self):
+        return [bool(self.present.get(n)) for n in self.names]
+
+    def _bad_list(self):
+        return [bool(self.present.get(n)) and n in self.bad for n in self.names]
+
     def _abs_tree(self, tree):
         if self.opaque:
             return [[] for _ in self.names]
@@ -190,13 +197,15 @@ class History:
                 self.present[n] = newp
                 self.tree[n] = self._norm(newtree.get(n, []))
                 self._materialise(n)
-        self.events.append({"ev": "dev", "files": self._abs_tree(self.tree), "lock": self.abs_lock})
+        self.events.append({"ev": "dev", "files": self._abs_tree(self.tree), "lock": self.abs_lock,
+                            "present": self._present_list(), "bad": self._bad_list()})
         self.last_reports = None
 
     def dev_set_lock(self, lock):
         self.proj.set_lock(self._real_lock(lock))
         self.abs_lock = self._abs_lock(self.proj.get_lock())
-        self.events.append({"ev": "dev", "files": self._abs_tree(self.tree), "lock": self.abs_lock})
+        self.events.append({"ev": "dev", "files": self._abs_tree(self.tree), "lock": self.abs_lock,
+                            "present": self._present_list(), "bad": self._bad_list()})
 
     # -- runs -----------------------------------------------------------------------------
     def expected_missing(self):
@@ -265,6 +274,11 @@ class History:
         others_same = (o0 == o1)
         snapeq = (snap0 == snap1)
         # ---- operations
+        order = []
+        for o in r.ops:
+            if o["op"] == "open" and o["path"] in src_paths and src_paths[o["path"]] not in order:
+                order.append(src_paths[o["path"]])
+        self.events[start_idx]["order"] = order
         self._emit_ops(r, src_paths, before, after, cls, snap0)
         # ---- reports
         reported, total = [], -1
@@ -307,7 +321,7 @@ class History:
                             "cls": cls, "pure": pure, "tmpleft": max(0, len(P.tmp_entries()) - self.tmp_baseline), "snapeq": snapeq,
                             "others_same": others_same, "reported": sorted(reported), "total": total,
                             "count": cnt if cnt is not None else -1, "rc": r.rc if r.rc is not None else -1,
-                            "pos_match": pos_match})
+                            "pos_match": pos_match, "present": self._present_list(), "bad": self._bad_list()})
         self.runs.append({"start": start_idx, "end": len(self.events) - 1, "run": r, "plan": plan, "mode": mode})
         return r
 
@@ -315,6 +329,7 @@ class History:
         P = self.proj
         exists = set(k for k, v in snap0.items() if v[0] != "absent")
         tmp_ids = {}
+        unlinked = set()
         scanning = False
         # post hoc: which tmp path ends up at which source file, and how long the complete content is
         last_rename = {}
@@ -365,6 +380,10 @@ class History:
             elif op in ("write", "pwrite"):
                 name = "write"
                 mut = ok and o["ret"] > 0
+                if path in unlinked:
+                    # a write through a descriptor whose file has been unlinked (async-std flushes its cache when the
+                    # handle is dropped): it reaches no file of any directory
+                    name, mut = "write_orphan", False
             elif op == "rename":
                 dcls, dst = classify(o["path2"])
                 if dcls != "src":
@@ -378,6 +397,7 @@ class History:
                 mut = ok
                 if ok:
                     exists.discard(path)
+                    unlinked.add(path)
             elif op in ("mkdir", "link", "symlink", "chmod", "chown", "utimens", "truncate", "ftruncate"):
                 name = "other"
                 mut = ok
@@ -434,3 +454,42 @@ def judge(histories_events, verdict, workdir=None, keep=None):
     if workdir is None:
         rm_scratch(d)
     return viols, r, n
+
+
+_ACC = re.compile(r'^"ACCEPT\|(\d+)"$')
+
+
+def runtrace(histories_events, max_files=5):
+    """Implementation-level validation (spec/RunTrace.tla): returns (accepted end-event positions, all end-event
+    positions, TLC result) for the eligible histories given as a list of event lists.  Positions are (history index,
+    local event index)."""
+    d = new_scratch("rt")
+    path = os.path.join(d, "trace.ndjson")
+    index = []          # global line number (1-based) of each end event -> (history, local)
+    n = 0
+    with open(path, "w") as fh:
+        for hi, evs in enumerate(histories_events):
+            for li, e in enumerate(evs):
+                fh.write(json.dumps(e) + "\n")
+                n += 1
+                if e.get("ev") == "end":
+                    index.append((n, hi, li))
+    r = run_tlc("RunTrace.tla", "RunTrace.cfg", workers=1, env={"TRACE": path}, coverage=False, xmx="6g", timeout=1800)
+    rm_scratch(d)
+    if r.error or r.violated:
+        raise ToolError("RunTrace failed to run: %s %s\n%s" % (r.violated, (r.error or "")[:500], r.out[-1500:]))
+    acc = set()
+    for line in r.out.splitlines():
+        m = _ACC.match(line.strip())
+        if m:
+            acc.add(int(m.group(1)))
+    accepted = [(hi, li) for (g, hi, li) in index if g in acc]
+    allruns = [(hi, li) for (g, hi, li) in index]
+    return accepted, allruns, r
+
+
+def runtrace_eligible(evs):
+    init = evs[0]
+    return (init.get("ev") == "init" and init.get("base", 0) == 0 and not init.get("must_fail") and 1 <= len(init.get("files", [])) <= 5
+            and "present" in init and any(len(f) for f in init["files"]) is not None
+            and all(e.get("ev") != "start" or "order" in e for e in evs))
